@@ -70,6 +70,14 @@ def proofs(tier, workroot):
               note='the two backward walks are bounded by the navigation fuel (complete unwinding, unwinding assertions on)',
               mutants=[('cpp_comment_guard_dropped', r'if \(ref->Is\(CT_COMMENT_CPP\)\)', 'if (false)', 'postcondition'),
                        ('close_brace_elsewhere', r'return\(chunk\.CopyAndAddAfter\(pc\)\);', 'return(chunk.CopyAndAddAfter(pc->GetPrev()));', 'postcondition')]),
+        Proof('paren_multiline_before_brace', impl='contracts/C04/mlcond.impl.cpp', spec='contracts/C04/mlcond.spec.c', harness='h_paren_multiline_before_brace', plain=True, no_contract=True, canaries=2,
+              rules={'paren_multiline_before_brace': [('D8', [(r'const auto paren_t = CT_SPAREN_CLOSE;', 'const E_Token paren_t = CT_SPAREN_CLOSE;', 'auto of E_Token', True),
+                                                              (r'auto paren_close = ', 'Chunk *paren_close = ', 'auto of Chunk*'), (r'auto paren_open  = ', 'Chunk *paren_open  = ', 'auto of Chunk*'),
+                                                              (r'auto       nl_count = size_t\{\};', 'size_t     nl_count = 0;', 'auto of size_t{}'), (r'const auto ret_flag = ', 'const bool ret_flag = ', 'auto of bool')])]},
+              nondet_static='.*(g_found|g_nlb_ok|g_nlb_count).*', expect=['postcondition: paren_multiline_before_brace'], drop_flags=['--conversion-check'],
+              functions=['braces.cpp:paren_multiline_before_brace'], assumed=['Chunk::GetPrevType finds the previous chunk of the type at the level it is asked for; newlines_between counts the line breaks between two chunks'],
+              mutants=[('any_level', r'brace->GetPrevType\(paren_t, brace->GetLevel\(\), E_Scope::ALL\)', 'brace->GetPrevType(paren_t)', 'postcondition'),
+                       ('single_line_counts', r'return\(nl_count > 0\);', 'return(true);', 'postcondition')]),
     ]
     return [p] + gates + [q for q in nlguard_proofs.all_proofs() if q.name in ('SafeToDeleteNl', 'convert_brace')]
 
@@ -78,7 +86,7 @@ EXPLANATION = ('Kernel of C04 (and C06-K4, C09-K6, C12-K3): the real driver uncr
                '(rewrite_infinite_loops, remove_extra_semicolons, remove_extra_returns, change_int_types, remove_duplicate_include, pawn_scrub_vsemi, sort_imports, '
                'add_long_closebrace_comment, add_long_preprocessor_conditional_block_comment) runs only if the option documented to request it is set; with all of '
                'them at default none runs. output_text runs exactly once and last; an embedded NUL is refused first; encoding/BOM policy; check accounting.')
-K = ['K4 insert_vbrace (where the braces added by mod_full_brace_*=add come to stand): at most one chunk is added, the close brace directly after the statement end, the open brace after a real chunk that is never a // comment', 'K3 do_braces / do_parens / do_parens_assign / do_parens_return (called unconditionally by the driver): brace removal, brace insertion, if-chain rewriting, case braces, case-break / case-return moves and added parentheses each happen only under the option(s) documented to request them',
+K = ['K5 paren_multiline_before_brace (mod_full_brace_nl_block_rem_mlcond): the parenthesis examined is the statement parenthesis at the level of this brace, and the answer comes from the line breaks inside that pair', 'K4 insert_vbrace (where the braces added by mod_full_brace_*=add come to stand): at most one chunk is added, the close brace directly after the statement end, the open brace after a real chunk that is never a // comment', 'K3 do_braces / do_parens / do_parens_assign / do_parens_return (called unconditionally by the driver): brace removal, brace insertion, if-chain rewriting, case braces, case-break / case-return moves and added parentheses each happen only under the option(s) documented to request them',
      'K2 convert_brace (brace -> virtual brace, used by every brace-removing option): only brace chunks are converted, at most the adjacent newline is deleted and only when SafeToDeleteNl() allows it (otherwise the statement would move into a // comment)',
      'K1 uncrustify_file: gating of the nine code-modifying passes the driver calls', 'C06-K4 output once and last; embedded-NUL scan', 'C09-K6 encoding/BOM policy', 'C12-K3 check_fail_cnt']
 G = [     'what each pass does once it runs (brace pairing, can_remove_braces, sorting permutes whole lines, balanced brackets): NOT proved; the mod_full_brace_if=remove defect quoted in the property lives there and is NOT detectable by this kernel',
